@@ -43,6 +43,12 @@ def symcoef_jobs(name, ops, tier, seed, extra_configs=()):
     return jobs
 
 
+# custom bases (reordered generators, permuted blade spellings): every operator property holds there too
+CUSTOM = [dict(name='2DPGA', random=6), dict(name='3DPGA', random=4),
+          dict(p=3, basis=['e', 'e1', 'e2', 'e3', 'e12', 'e31', 'e23', 'e123'], random=6),
+          dict(p=2, basis=['e', 'e2', 'e1', 'e21'], random=6)]
+
+
 BINARY_OPS = ('gp', 'op', 'ip', 'lc', 'rc', 'sp', 'cp', 'acp', 'rp', 'add', 'sub')
 UNARY_OPS = ('neg', 'reverse', 'involute', 'conjugate', 'hodge', 'unhodge', 'polarity', 'unpolarity')
 
